@@ -12,7 +12,10 @@ TdmsFile.open(io.BytesIO(...)).
     .offset), and every generator is driven to exhaustion at the end and must
     stop exactly where the fresh one stops;
   * correspondence: the model's `run` on the same abstract file and history is
-    evaluated inside Coq and compared output by output.
+    evaluated inside Coq and compared output by output, and the position of the
+    BytesIO the harness supplied (tell() after every operation) with the model's
+    file position (positions left by the lead-in tag check are not compared, so
+    harmless seeks do not matter).
 Failing histories are shrunk (ops deleted while the failure persists).
 """
 import io
@@ -35,7 +38,7 @@ logging.disable(logging.CRITICAL)   # misreads on a defective tree make nptdms l
 from nptdms import TdmsFile  # noqa: E402
 
 IMPORTS = ("From NpTdms Require Import Model.IoPlan.\nOpen Scope Z_scope.\n")
-CASE_TYPE = "file * list op * list (option out)"
+CASE_TYPE = "file * list op * list (option out) * list (option Z)"
 
 # ---------------------------------------------------------------------------
 # A small independent TDMS encoder (little-endian, TDMS 2.0 / version 4713)
@@ -275,7 +278,14 @@ def coq_file(F):
 # Observing the implementation (public API only)
 
 def cv(x):
-    """canonical, hashable form of one value"""
+    """canonical, hashable form of one value (never raises)"""
+    try:
+        return _cv(x)
+    except Exception as e:   # garbage read by a defective tree
+        return ("?", type(e).__name__)
+
+
+def _cv(x):
     if isinstance(x, np.datetime64):
         return ("dt", str(x.dtype), int(x.astype("int64")))
     if hasattr(x, "second_fractions") and hasattr(x, "seconds"):
@@ -297,8 +307,8 @@ def cvs(arr):
     return [cv(arr[i]) for i in range(len(arr))]
 
 
-def open_file(F):
-    return TdmsFile.open(io.BytesIO(F["bytes"]), raw_timestamps=F["raw_ts"])
+def open_file(F, stream=None):
+    return TdmsFile.open(stream if stream is not None else io.BytesIO(F["bytes"]), raw_timestamps=F["raw_ts"])
 
 
 def exec_op(tf, F, gens, op):
@@ -365,6 +375,8 @@ class Fresh:
                     o = exec_op(tf, self.F, gens, ("next", 0))
                     out.append(o)
                     if o[0] != "chunk" and o[0] != "fchunk":
+                        if o[0] != "stop":
+                            out.append(["stop"])   # a generator that raised is finished
                         break
                     if len(out) > 200:
                         break
@@ -414,15 +426,25 @@ def annotate(ops):
     return res
 
 
-def run_history(F, ops):
+def run_history(F, ops, positions=None):
+    """positions: a list that receives the position of the stream the harness supplied after every
+    operation (None while it still is where TdmsFile.open left it)"""
     gens = {}
-    with open_file(F) as tf:
-        return [exec_op(tf, F, gens, op) for op in ops]
+    bio = io.BytesIO(F["bytes"])
+    with open_file(F, bio) as tf:
+        p0 = bio.tell()
+        outs = []
+        for op in ops:
+            outs.append(exec_op(tf, F, gens, op))
+            if positions is not None:
+                p = bio.tell()
+                positions.append(None if p == p0 else p)
+        return outs
 
 
-def first_diff(F, fresh, ops):
+def first_diff(F, fresh, ops, positions=None):
     """index of the first op whose output on the shared file differs from the fresh one, or None"""
-    outs = run_history(F, ops)
+    outs = run_history(F, ops, positions)
     for i, (o, a) in enumerate(zip(outs, annotate(ops))):
         if o != fresh.of(a):
             return i, outs
@@ -543,7 +565,10 @@ def labels_of(F):
     with open_file(F) as tf:
         for c in F["chans"]:
             g, n = chan_names(c)
-            vals = cvs(tf[g][n][:])
+            try:
+                vals = cvs(tf[g][n][:])
+            except Exception:    # a tree on which even a plain full read fails: nothing can be labelled
+                vals = []
             d = {}
             for j, v in enumerate(vals):
                 d[v] = j
@@ -596,11 +621,50 @@ def has_gap(F, c):
     return bool(idx) and not all(present[idx[0]:idx[-1] + 1])
 
 
-def coq_case(F, labels, ops, outs):
+D3_PRESENT = None
+
+
+def d3_present():
+    """Is defect D3 (C04: window spanning a segment without the channel) in the tree under test?
+    Probe: channel 0 in segments 0 and 2 only, read_data(0, 3)."""
+    global D3_PRESENT
+    if D3_PRESENT is None:
+        blob = b""
+        for chans, nch in (([0], 1), ([1], 1), ([0], 3)):
+            objs = [enc_obj(chan_path(c), (T_I32, 2)) for c in chans]
+            data = b"".join(struct.pack("<i", v) for v in range(2 * nch * len(chans)))
+            blob += enc_segment(TOC_META | TOC_NEWOBJ | TOC_RAW, objs, data)[0]
+        try:
+            bio = io.BytesIO(blob)
+            with TdmsFile.open(bio) as tf:
+                got = [int(v) for v in tf["g0"]["c0"].read_data(0, 3)]
+                # the window needs the first chunk of segment 2 only; with D3 all three chunks are read
+                D3_PRESENT = got != [0, 1, 0] or bio.tell() == len(blob)
+        except Exception:
+            D3_PRESENT = True
+    return D3_PRESENT
+
+
+def coq_case(F, labels, ops, outs, positions=None):
     """(term, number of outputs left uncompared because of defect D3)"""
     obs = []
     skipped = 0
     gen_of = {}
+    if positions is None:
+        positions = [None] * len(ops)
+    pos_terms = []
+    tainted = None
+    for op, p in zip(ops, positions):
+        if p is not None and op[0] in ("read", "slice") and has_gap(F, op[1]) and d3_present():
+            # D3 changes which chunks such a window reads, hence where it leaves the stream; the
+            # position stays uncompared until some later operation moves the stream again
+            tainted = p
+            pos_terms.append("None")
+        elif p is None or p == tainted:
+            pos_terms.append("None")     # stream untouched since open / since the tainted window
+        else:
+            tainted = None
+            pos_terms.append("(Some %d)" % p)
     for op, o in zip(ops, outs):
         if op[0] == "cgen":
             gen_of[op[2]] = op[1]
@@ -622,7 +686,9 @@ def coq_case(F, labels, ops, outs):
             skipped += 1
             continue
         obs.append("(Some (%s))" % coq_out(labels, key, o))
-    return "(%s, %s, %s)" % (coq_file(F), H.clist([coq_op(op) for op in ops]), H.clist(obs)), skipped
+    coq_case.positions_compared = sum(1 for t in pos_terms if t != "None")
+    return "(%s, %s, %s, %s)" % (coq_file(F), H.clist([coq_op(op) for op in ops]), H.clist(obs),
+                                 H.clist(pos_terms)), skipped
 
 
 # ---------------------------------------------------------------------------
@@ -657,27 +723,45 @@ def nontrivial(ops):
 
 
 def work(args):
+    try:
+        return work1(args)
+    except Exception as e:     # never lose a worker: the parent reports it
+        import traceback
+        return {"crash": "%s: %s" % (type(e).__name__, e), "trace": traceback.format_exc()[-1500:], "fidx": args[1]}
+
+
+def work1(args):
     seed, fidx, nhist = args
     rng = random.Random("%d/%d" % (seed, fidx))
     F = gen_file(rng)
     fresh = Fresh(F)
     labels = labels_of(F)
     res = {"fidx": fidx, "shape": F["shape"], "types": [TYPE_NAMES[t] for t in F["types"]],
-           "cases": [], "fails": [], "nontrivial": 0, "ops": 0, "dist": {}, "d3_skipped": 0,
-           "label_clash": any(n != d for _, n, d in labels.values())}
+           "cases": [], "fails": [], "nontrivial": 0, "positions": 0, "ops": 0, "dist": {}, "d3_skipped": 0,
+           "label_clash": any(n != d for _, n, d in labels.values()),
+           "unlabelled": [c for c in F["chans"] if labels[c][1] != F["lengths"][c]]}
     for h in range(nhist):
         ops = gen_history(rng, F, fresh)
-        i, outs = first_diff(F, fresh, ops)
+        positions = []
+        i, outs = first_diff(F, fresh, ops, positions)
         res["ops"] += len(ops)
         for op in ops:
             res["dist"][op[0]] = res["dist"].get(op[0], 0) + 1
         if nontrivial(ops):
             res["nontrivial"] += 1
+        live, most = set(), 0
+        for op in ops:
+            if op[0] in ("cgen", "fgen"):
+                live.add(op[-1])
+                most = max(most, len(live))
+        key = "histories_with_%s_generators" % ("5plus" if most >= 5 else str(most))
+        res["dist"][key] = res["dist"].get(key, 0) + 1
         if i is not None:
             res["fails"].append({"hist": h, "ops": ops, "at": i, "key": classify(ops, i)})
         else:
-            term, sk = coq_case(F, labels, ops, outs)
+            term, sk = coq_case(F, labels, ops, outs, positions)
             res["d3_skipped"] += sk
+            res["positions"] += coq_case.positions_compared
             res["cases"].append((h, term, ops))
     res["F"] = {k: F[k] for k in ("bytes", "types", "chans", "segs", "lengths", "raw_ts", "shape")}
     res["fresh_opens"] = fresh.opens
@@ -689,11 +773,22 @@ def case_payload(F, ops):
             "abstract": {k: F[k] for k in ("types", "chans", "segs", "lengths", "shape")}}
 
 
-def report_failure(run, F, ops, shrunk=True):
+def report_failure(run, F, ops, shrunk=True, witness=False):
     fresh = Fresh(F)
+    extra = {}
+    if witness:
+        # Props/C05.v history_refuted uses exactly this file and history: does step_asis
+        # predict what the implementation under test does on it?
+        pos_full = []
+        outs_full = run_history(F, ops, pos_full)
+        term_full, _ = coq_case(F, labels_of(F), ops, outs_full, pos_full)
+        bad_w, e_w = H.run_sharded(run.pid, IMPORTS, CASE_TYPE, "check_case_asis", [term_full], tag="witness_asis")
+        extra["history_refuted_witness_reproduced_by_step_asis"] = not bad_w and not e_w
+        extra["implementation_outputs_on_witness"] = outs_full
     if shrunk:
         ops = shrink(F, fresh, ops)
-    i, outs = first_diff(F, fresh, ops)
+    positions = []
+    i, outs = first_diff(F, fresh, ops, positions)
     if i is None:
         return False
     key = classify(ops, i)
@@ -701,11 +796,12 @@ def report_failure(run, F, ops, shrunk=True):
     what = ("history of %d ops on one open file: op #%d %r yields %r, on a freshly opened file %r (file shape %s)"
             % (len(ops), i, ops[i], outs[i], exp, "|".join(F["shape"])))
     labels = labels_of(F)
-    term, _ = coq_case(F, labels, ops, outs)
+    term, _ = coq_case(F, labels, ops, outs, positions)
     bad_fixed, e1 = H.run_sharded(run.pid, IMPORTS, CASE_TYPE, "check_case", [term], tag="viol_fixed")
     bad_asis, e2 = H.run_sharded(run.pid, IMPORTS, CASE_TYPE, "check_case_asis", [term], tag="viol_asis")
     model = {"agrees_with_repaired_model(step)": not bad_fixed and not e1,
              "agrees_with_as_is_model(step_asis)": not bad_asis and not e2}
+    model.update(extra)
     run.violation(key, what, case_payload(F, ops), expected=exp, actual=outs[i], model=model)
     return True
 
@@ -726,8 +822,9 @@ def replay(run, case):
     if not report_failure(run, F, ops, shrunk=False):
         fresh = Fresh(F)
         labels = labels_of(F)
-        _, outs = first_diff(F, fresh, ops)
-        term, _ = coq_case(F, labels, ops, outs)
+        positions = []
+        _, outs = first_diff(F, fresh, ops, positions)
+        term, _ = coq_case(F, labels, ops, outs, positions)
         bad, errors = H.run_sharded(run.pid, IMPORTS, CASE_TYPE, "check_case", [term], tag="replay")
         run.corr_errors(errors)
         if bad:
@@ -764,6 +861,8 @@ def main():
         "the OS file position is one integer; reads return the block laid out at that position",
         "values are labels: the model moves them, decoding is C01's subject (labels are recovered from a fresh "
         "full read of each channel)",
+        "the stream position is compared with the model's after every operation whenever the model's position "
+        "lies in the raw data of a segment (not after a D3-exposed window while D3 is unfixed)",
         "window reads use the specification 'values of the window' in the model; windows spanning a segment in "
         "which the channel is absent are compared against the fresh file only while defect D3 is unfixed",
         "files: 1-4 segments, 2-3 channels of int32/float64/string/timestamp, 1-4 chunks, contiguous and "
@@ -774,11 +873,12 @@ def main():
     run.cov["evaluations"] += 1
     run.count("d4_witness")
     witness_cases = []
-    i, outs = first_diff(Fw, fresh_w, ops_w)
+    pos_w = []
+    i, outs = first_diff(Fw, fresh_w, ops_w, pos_w)
     if i is not None:
-        report_failure(run, Fw, ops_w)
+        report_failure(run, Fw, ops_w, witness=True)
     else:
-        witness_cases.append(coq_case(Fw, labels_of(Fw), ops_w, outs)[0])
+        witness_cases.append(coq_case(Fw, labels_of(Fw), ops_w, outs, pos_w)[0])
     # random files x histories
     jobs = [(run.seed, k, nhist) for k in range(nfiles)]
     with multiprocessing.get_context("fork").Pool(H.NCPU) as pool:
@@ -787,6 +887,11 @@ def main():
     nfail = 0
     reported = {}
     for r in results:
+        if "crash" in r:
+            run.violation("harness-crash", "the harness could not process generated file #%d: %s"
+                          % (r["fidx"], r["crash"]), {"file_index": r["fidx"], "trace": r["trace"]},
+                          kind="correspondence-broken", theorem="harness", no_input=True)
+            continue
         F = restore_F(r["F"])
         run.cov["evaluations"] += len(r["cases"]) + len(r["fails"])
         run.cov["distinct_nontrivial"] += r["nontrivial"]
@@ -795,12 +900,15 @@ def main():
         run.count("ops_total", r["ops"])
         run.count("fresh_opens", r["fresh_opens"])
         run.count("window_outputs_not_compared_with_model_D3", r["d3_skipped"])
+        run.count("stream_positions_compared_with_model", r["positions"])
         for k, v in r["dist"].items():
-            run.count("op_" + k, v)
+            run.count(k if k.startswith("histories_") else "op_" + k, v)
         for sh in r["shape"]:
             run.count("segment_" + sh.rstrip("01234"))
         for t in r["types"]:
             run.count("channel_" + t)
+        if r["unlabelled"]:
+            run.count("channels_whose_fresh_full_read_failed", len(r["unlabelled"]))
         if r["label_clash"]:
             run.violation("harness-labels", "generated values of a channel are not distinct after reading",
                           {"file_hex": F["bytes"].hex()}, kind="correspondence-broken",
@@ -824,15 +932,19 @@ def main():
     run.cov["traces_validated_against_impl"] += len(cases) - len(bad)
     for i in bad[:3]:
         F, ops = meta[i]
-        outs = run_history(F, ops)
+        pos_i = []
+        outs = run_history(F, ops, pos_i)
         rc, out = H.coq_print_terms(run.pid, IMPORTS,
                                     ["wf_file %s" % coq_file(F),
-                                     "snd (run %s init %s)" % (coq_file(F), H.clist([coq_op(o) for o in ops]))],
+                                     "snd (run %s init %s)" % (coq_file(F), H.clist([coq_op(o) for o in ops])),
+                                     "pos_trace true %s init %s" % (coq_file(F), H.clist([coq_op(o) for o in ops]))],
                                     tag="show%d" % i)
         run.violation("corr-history", "model (Model.IoPlan.run) and implementation disagree on a history that "
                       "satisfies the fresh-file oracle (file shape %s)" % "|".join(F["shape"]),
                       case_payload(F, ops), kind="correspondence-broken",
-                      theorem="Model.IoPlan.run vs TdmsFile", actual=outs, model=out[-3000:], no_input=True)
+                      theorem="Model.IoPlan.run vs TdmsFile", actual={"outputs": outs, "positions": pos_i},
+                      model=out[-3000:], no_input=True)
+    run.notes.append("defect D3 present in the tree under test: %s" % d3_present())
     run.cov["rule"] = ("one evaluation = one history (20-60 random ops + draining every live generator) run on "
                        "one open file, every output compared with a fresh file and with the model; "
                        "non-trivial = a history in which next() calls on a generator are interleaved with other "
